@@ -240,6 +240,14 @@ pub fn load(corpus_dir: &Path, repo: &Path, thorough: bool, seed: u64) -> Corpus
     for (i, g) in unicode_groups().into_iter().enumerate() {
         raw.push(GrammarSrc { id: format!("unicode_{:02}", i), family: "unicode".into(), text: g });
     }
+    {
+        // every small expression over the stack operations (quick: up to 4 nodes; thorough: plus a
+        // seeded sample of the 5-node ones)
+        let mut rng = Rng::new(seed).derive(0x5E9);
+        for (i, g) in crate::senum::grammars(4, if thorough { 1500 } else { 0 }, &mut rng).into_iter().enumerate() {
+            raw.push(GrammarSrc { id: format!("senum_{:02}", i), family: "senum".into(), text: g });
+        }
+    }
     if thorough {
         let mut rng = Rng::new(seed).derive(0xC0FFEE);
         let mut made = 0;
